@@ -610,6 +610,9 @@ class Engine:
         if cls and cls.startswith("pb:"):
             self.schema.pb.set(self, obj, attr, val, st)
             return
+        if obj.k == "pbsub":
+            self.schema.pb.sub_set(self, obj, attr, val, st)
+            return
         ci = self.prog.classes.get(cls) if cls else None
         if ci is not None:
             setter = ci.lookup_setter(attr)
@@ -1590,6 +1593,15 @@ class Engine:
             if recv.k == "pbrep" and self.schema.pb.is_msg(self.schema.pb.fdef(recv.x[1], recv.x[2])["type"]):
                 # repeated message field filled by  (callee(e) for e in S)  with an allocating callee under contract
                 return self.schema.pb.extend_map(self, recv, node.args[0], st)
+        if (isinstance(f, ast.Attribute) and f.attr == "extend" and len(node.args) == 1 and not node.keywords
+                and isinstance(node.args[0], ast.Call) and isinstance(node.args[0].func, ast.Attribute)):
+            recv = self.eval(f.value, st)
+            if recv.k == "pbrep" and self.schema.pb.is_msg(self.schema.pb.fdef(recv.x[1], recv.x[2])["type"]):
+                inner = node.args[0]
+                callee = self.eval(inner.func, st)
+                if callee.k == "boundmethod" and callee.x[0] is not None and callee.x[1].is_generator() \
+                        and not inner.args and not inner.keywords:
+                    return self.schema.pb.extend_genfunc(self, recv, callee, st)
         # evaluate arguments
         fv = self.eval(f, st)
         args = []
